@@ -306,21 +306,34 @@ for _pid, _expl in [
         'explanation': _expl,
     }
 
+A_STDIO = ('A-std-io: ASSUMED contracts of the std::io items Frame::read / Frame::write call (contracts/io_standins.rs): Write::write_all(buf) appends exactly buf to what the sink '
+           'received or fails having delivered a proper prefix (short writes and Interrupted are retried inside it); BufReader::with_capacity(1, r).read_until(LF, v) consumes from r '
+           'exactly the first line and appends it to v, however r fragments its reads and however often it reports Interrupted, and with any other capacity may consume more; '
+           'thiserror\'s #[from] wraps an io::Error in FrameError::Io; core\'s reflexive From is the identity. These are stated over stand-in traits/types with the std names, '
+           'not proved; the bounded Kani harnesses c15_* and the native `stream` domain run the REAL std code against them')
 PROPS['C15'] = {
-    'level': 'other',
+    'level': 'proof',
+    'verus': [{'tmpl': 'frame_io.rs.tmpl', 'obligations': ['Frame::write', 'Frame::read', 'Frame::to_bytes_with_newline', 'Frame::to_bytes', 'Frame::payload',
+               'Frame::from_bytes', 'Data::try_new', 'Frame::new', 'lemma_shape_groups', 'lemma_group_names', 'lemma_hex_num2', 'lemma_hex_num4',
+               'lemma_line_len_prefix', 'lemma_c15_back_to_back', 'c15_read_two', 'lemma_enc_chars', 'lemma_roundtrip', 'lemma_roundtrip_nl', 'lemma_pairs']}],
     'kani': [{'package': 'flipdot-core', 'harnesses': [
         H('c15_read_one_line_tape2_interrupts', covers=1, bounded='stream of 0..=2 bytes, up to 2 Interrupted results, a hard error at any of the first 6 read calls'),
         H('c15_write_delivers_whole_frame_accept7', covers=2, bounded='15-byte encoding (1 data byte), sink accepting 7 bytes per call, one Interrupted result, a hard error at any of the first 5 write calls'),
         H('c15_read_one_line_tape4_hard_errors', covers=3, tier='thorough', bounded='stream of 0..=4 bytes, a hard error at any of the first 6 read calls, no Interrupted results'),
         H('c15_write_delivers_whole_frame_accept4', covers=2, tier='thorough', bounded='15-byte encoding, sink accepting 4 bytes per call, one Interrupted result, a hard error at any of the first 5 write calls'),
     ], 'timeout': 5400}],
-    'functions': ['flipdot_core::frame::Frame::read (real std BufReader::with_capacity(1)/read_until executed by Kani; Frame::from_bytes replaced by a contract stub that records its argument)',
-                  'flipdot_core::frame::Frame::write (real std write_all executed by Kani)'],
-    'assumptions': [A_TOOLS, A_DEBUG,
-                    'BOUNDED STAND-IN, nothing here is counted as proved: Verus has no specifications for std::io (writing them would be assuming the property) so no unbounded contract is within reach; Kani executes the real std code but only for very short streams',
-                    'the mechanism the harness checks is length-uniform (every request to the reader is for exactly 1 byte; no request is made after the line feed was delivered), which is why short streams are believed representative; that uniformity is argued, not proved',
-                    'back-to-back frames follow by applying the same statement to the remaining stream (stated, not executed)'],
-    'explanation': 'Bounded Kani runs of the real Frame::read / Frame::write on adversarial Read / Write implementations: the reader is asked for one byte at a time and never after the line feed, consumes exactly the line (position == line length), decodes exactly that line once and returns the decoder\'s result; Interrupted reads/writes are retried; a hard error surfaces as FrameError::Io; a short-writing sink receives exactly the encoding with CRLF, in order.',
+    'functions': ['flipdot_core::frame::Frame::write, Frame::read (Verus, extracted; statement-final `?` desugared to the explicit match + From::from, listed per function in verus_units)',
+                  'flipdot_core::frame::{Frame::to_bytes_with_newline, Frame::to_bytes, Frame::payload, Frame::from_bytes, Data::try_new, Frame::new} (Verus, the callee contracts the two I/O functions are checked against; same text as C01/C03)',
+                  'BOUNDED: Frame::read on the real std BufReader::with_capacity(1)/read_until and Frame::write on the real std write_all, executed by Kani on adversarial Read / Write implementations'],
+    'assumptions': [A_STDIO, A_USIZE, A_COW, A_INTO, A_REGEX, A_CHUNKS, A_CAP, A_TOOLS, A_DEBUG,
+                    'what the proof establishes is the part of C15 that is flipdot\'s: Frame::read wraps the caller\'s reader itself in a BufReader of capacity exactly 1, starts from an empty buffer, makes one read_until(LF) call, '
+                    'hands exactly those bytes to Frame::from_bytes and returns its verdict, maps an io::Error to FrameError::Io; Frame::write makes one write_all call with exactly to_bytes_with_newline(). '
+                    'That the stream may fragment and interrupt is absorbed by the assumed std contracts (A-std-io)',
+                    'the Kani runs are the BOUNDED check of A-std-io against the real std code (very short streams); the mechanism is length-uniform (every request to the reader is for exactly 1 byte; none after the line feed), which is argued, not proved',
+                    'back-to-back frames: lemma_c15_back_to_back (the first line of enc(f)+CRLF+t is enc(f)+CRLF, what remains is t, and it decodes to f) and the executed composition c15_read_two (two reads return the two frames in order and leave exactly the trailing bytes) are proved; n frames follow by repeating the lemma (induction over the list is not mechanised)'],
+    'explanation': ('Verus: Frame::read consumes exactly first_line(rest) (up to and including the first LF, or everything at end of stream) and returns dec(first_line) - Ok(frame), InvalidFrame, FrameDataMismatch with the counts, '
+                    'BadChecksum with the values - or FrameError::Io having consumed at most that line; Frame::write appends exactly enc(frame) + CRLF to the sink or returns FrameError::Io having delivered a proper prefix. '
+                    'Both relative to the assumed std::io contracts. Kani (bounded): the real std code on adversarial readers/writers - one byte per request, never a request after the line feed, Interrupted retried, hard errors surfaced, short writes completed.'),
 }
 
 C08_SEND = ['c08_send_pages_max3000_front_112x16', 'c08_send_pages_max3000_front_98x16', 'c08_send_pages_max3000_side_90x7', 'c08_send_pages_max3000_rear_30x10',
